@@ -280,6 +280,7 @@ CLAIMED["C05"] = {
             "in the single-target regression metrics every sum or difference combines terms of the same homogeneity degree in the data (a dimensional analysis over the provided trait methods: prediction and truth have degree 1, products add and quotients subtract degrees, literals below 1e-6 are regularisers) - explained_variance of the pinned tree subtracts the mean error from a sum of squares (known finding with the failing input); "
             "the axis of the confusion matrix that is filled from the prediction (read off map_prediction_to_idx, its call and the indexing of the increment) is the one the binary precision fixes, the binary recall fixes the other, and split_one_vs_all takes the false positives from the prediction's line - binary precision and recall of the pinned tree fix the wrong axes, i.e. are exchanged (two known findings with the failing input); "
             "every (prediction, truth) pair adds exactly one to one cell of a square matrix over the class list, both indices looked up in one class map; accuracy is trace over total; split_one_vs_one enumerates the pairs i < j (it included the diagonal: repaired). "
+            "median_absolute_error reads the middle position(s) of a *fully sorted* error sequence (a selection around one position does not order its neighbours); no sum or difference in the metric code has the same operand on both sides (a trapezoid uses both end points); the class list of a confusion matrix over a dataset is the key set of a label-count cache that starts empty (shared with C02). "
             "Not decided: the numerical definitions themselves - MCC, F-beta, ROC / AUC and its treatment of ties and of the first threshold, log-loss, the regression formulas beyond their degrees, silhouette, Pearson, permutation invariance.",
     "design_ref": "DESIGN.md section 4, C05",
     "note": "Trusted: rustc resolution/typeck, the fact dump; in ToConfusionMatrix::confusion_matrix(&self, ground_truth) the receiver is the prediction. Claimed late in the build (section 5).",
@@ -297,6 +298,7 @@ CLAIMED["C06"] = {
             "the linkage runs on the -ln transform (floored, ln of the similarity only above the floor) of the kernel's upper triangle, with kernel.size() and the configured linkage method; "
             "all six Kernel accessors dispatch to the Inner method of their own name in both arms with the argument passed on, the three to_upper_triangle impls keep col > row, Kernel::new / view / to_owned keep the variant, the builder of the variant, the configured neighbour count and the configured method; "
             "Clone impls, builder methods, accessors and constructors of linfa-kernel and linfa-hierarchical carry what was configured; no generic-float value is narrowed to f32 and stored. "
+            "The polynomial degree is used as given (not converted to an integer for an integer power); the -ln transform is not clamped; builder methods of the clustering and kernel parameters that rebuild the set carry every field and store their arguments unchanged. "
             "Not decided: numerical equality of entries, symmetry up to rounding, positive semidefiniteness, which points the index returns, agreement of dense and sparse products and sums, the linkage algorithm itself (kodama), ties.",
     "design_ref": "DESIGN.md section 4, C06",
     "note": "Trusted: rustc resolution/typeck, the fact dump; kodama::linkage's documented step numbering; sprs::CsMatBase::new_from_unsorted's argument order. Claimed late in the build (section 5).",
@@ -311,6 +313,7 @@ CLAIMED["C11"] = {
             "the descents stop on gap < tol*||y||^2 and return the gap that was compared; "
             "OLS under fit_intercept appends a ones column along the feature axis, publishes its coefficient (the last one) as the intercept and removes it from the parameters, publishes a zero intercept otherwise; "
             "Clone impls, builder methods, accessors and constructors of linfa-elasticnet and linfa-linear carry what was configured, no generic-float value is narrowed to f32 and stored, raw buffers are used by position only behind a layout test. "
+            "A residual update that is skipped under a zero test vanishes whenever the tested value is zero (it is a product with it: the residual never goes stale); no filtered list of column positions is zipped with an unfiltered walk over the columns; `Default::default()` and `new()` of the estimators build the same value. "
             "Not decided: optimality itself (KKT conditions, orthogonality of the OLS residual), non-negativity of the gap, convergence within the iteration budget.",
     "design_ref": "DESIGN.md section 4, C11",
     "note": "Trusted: rustc resolution/typeck, the fact dump. Claimed late in the build (section 5).",
@@ -326,6 +329,7 @@ CLAIMED["C15"] = {
             "mini-batch k-means divides the shift by the cumulative per-cluster count, incremented by one before the division, the counts handed to the update are the model's own cluster_count, and Ok / NotConverged follow `shift < tolerance`; "
             "FTRL takes the weights before z and n are written, z gains the gradient and loses sigma*weights, n gains the squared gradient, sigma is computed before the update, a weight is exactly zero when |z| <= l1 (non-strict), and fit_with continues from the given model; "
             "hand-written Clone impls and builder methods of the two crates carry every field, no generic-float value is narrowed to f32 and stored. "
+            "The cluster counts that KMeans::fit stores are the counted memberships, unadjusted (fit_with continues a running mean from them); the variance boost is subtracted either from every class of the carried model or not at all - never per class of the current batch; a struct literal that copies from a struct with a like-named field takes the like-named field (Ftrl::new: l1 from l1). "
             "Not decided: the statistics themselves (pooled mean / variance algebra, log-probabilities, the learning-rate formula), equality of batch and incremental results as numbers, posterior arg-max (ties are decided under C20).",
     "design_ref": "DESIGN.md section 4, C15",
     "note": "Trusted: rustc resolution/typeck, the fact dump. Claimed late in the build (section 5 explains what changed the earlier not-applicable verdict).",
@@ -342,6 +346,7 @@ CLAIMED["C17"] = {
             "the sparse row pairs each count with an enumerate() column taken before the zero filter, the zero filter drops exactly the zero counts, and the document frequency of the same column is incremented; "
             "each tf-idf entry is the count times the idf indexed by its own column, computed from (number of transformed documents, that column's document frequency) in this order; "
             "hand-written Clone impls and builder methods of the vectorisers carry every field. "
+            "Builder methods of the vectorisers store their arguments unchanged (no case folding, trimming or filtering of stop words or expressions); check_ref compiles the tokeniser expression that is configured now (the write of the compiled form is not skipped because one is already there). "
             "Not decided: the recount itself - what the regex or tokenizer function matches, the float-to-count arithmetic of the frequency window, the three idf formulas, which entries a feature cap keeps (the sort key's reproducibility is decided under C20), the order of the vocabulary.",
     "design_ref": "DESIGN.md section 4, C17",
     "note": "Trusted: rustc resolution/typeck, the fact dump; HashSet iteration yields each element once; sprs append / iter_mut pair a value with its column index. Claimed late in the build (section 5 explains what changed the earlier not-applicable verdict).",
